@@ -619,7 +619,7 @@ TABLE["C03"] = [
       (PW, "        cpp_class = instantiated_class.to_cpp()\n        if cpp_class in self.ignore_classes:", "        cpp_class = instantiated_class.to_cpp()\n        if instantiated_class.name in self.ignore_classes:")),
     N("dispatch-order-changed",
       (PW, "                elif isinstance(element, parser.Enum):\n                    wrapped += self.wrap_enum(element)\n", "                elif isinstance(element, parser.Enum):\n                    enum_text = self.wrap_enum(element)\n                    wrapped += enum_text\n")),
-    N("keyword-list-extended",
+    B("keyword-list-extended", {"A6"},      # `match` / `case` are soft keywords: `obj.match()` is plain Python, the binding must keep the declared name
       (PW, "            'continue', 'global', 'pass', 'async', 'await'", "            'continue', 'global', 'pass', 'async', 'await', 'match', 'case'")),
 ]
 
@@ -1695,4 +1695,11 @@ TABLE["C02"] += [
       (TIH, "            else:\n                instantiate_template_args(instantiation)\n", "            else:\n                instantiate_template_args(instantiation)\n            break\n")),
     N("nested-walk-skips-leaves-explicitly", (TIH, "            else:\n                instantiate_template_args(instantiation)\n",
                                               "            elif not instantiation.instantiations:\n                continue\n            else:\n                instantiate_template_args(instantiation)\n")),
+]
+_OPS_TAIL = "                res += template.format(\"py::self {0} py::self\".format(\n                    op.operator))\n        return res\n"
+TABLE["C03"] += [
+    B("operators-unique-by-symbol", {"A11"}, (PW, "        for op in operators:\n            if op.operator == \"[]\":  # __getitem__",
+                                             "        for op in {o.operator: o for o in operators}.values():\n            if op.operator == \"[]\":  # __getitem__")),
+    B("unary-operators-bound-as-binary", {"A11"}, (PW, "            elif op.is_unary:\n", "            elif op.is_unary and op.operator == '-':\n")),
+    N("operators-through-a-list-of-pieces", (PW, _OPS_TAIL, "                res += template.format(\"py::self {0} py::self\".format(\n                    op.operator))\n        pieces = [res]\n        return \"\".join(pieces)\n")),
 ]
